@@ -4,11 +4,15 @@ from . import c08
 
 
 def run(cx):
+    # premise of "replace the range entry of the copy": the copy owns its range lists
+    from . import fcsdata_rules as R
+    R.attrset(cx)
     T.to_rfi_all(cx, want=('FORMULA', 'SAMELAW', 'WRITESET'))
     T.to_mef_all(cx, want=('SAMELAW', 'WRITESET'))
     T.transform_all(cx)
     c08.high_low(cx)
     cx.decided += [
+        'derived samples own their range lists (__array_finalize__ deep-copies every attribute that is not immutable), so converting a copy cannot move the source\'s limits',
         'in transform, to_rfi and to_mef the range limits of a converted channel are pushed through the very callable applied to its events',
         'ranges of other channels are never stored to',
         'the high/low gate reads its default thresholds from range() of the gated channels and compares strictly',
